@@ -310,7 +310,8 @@ func TestVerifC07(t *testing.T) {
 		if !vh.Mine(work) {
 			continue
 		}
-		h.explore(cfg, true, vh.Thorough())
+		// pairs of cuts: always for the first six configurations, for all in thorough
+		h.explore(cfg, true, vh.Thorough() || work <= 6)
 		res.Sample(map[string]any{"config": cfg.String(), "cuts": "every single cut point"})
 	}
 	for _, cfg := range light {
